@@ -39,13 +39,13 @@ structure TV where
 def TV.sorted (tv : TV) : List Nat := argsort tv.parts.flatten
 
 /-- `stitch`: concatenate the parts' data and gather by the argsort of the concatenated indices -/
-def TV.stitch {α : Type} [Inhabited α] (tv : TV) (data : List (List α)) : List α :=
+def TV.stitch {α : Type} (tv : TV) (d : α) (data : List (List α)) : List α :=
   let cat := data.flatten
-  tv.sorted.map fun i => cat.getD i default
+  tv.sorted.map fun i => cat.getD i d
 
 /-- `split`: gather each part's indices -/
-def TV.split {α : Type} [Inhabited α] (tv : TV) (v : List α) : List (List α) :=
-  tv.parts.map fun idx => idx.map fun i => v.getD i default
+def TV.split {α : Type} (tv : TV) (d : α) (v : List α) : List (List α) :=
+  tv.parts.map fun idx => idx.map fun i => v.getD i d
 
 /-- `_tensorviewer_from_sizes` -/
 def TV.ofSizes (sizes : List Nat) : TV :=
@@ -307,22 +307,22 @@ def constraintsTV (m : Model K) : TV :=
   { parts := (if nd.isEmpty then [] else [nd]) ++ (if pd.isEmpty then [] else [pd]) }
 
 /-- `Model.expected_auxdata`: stitch of the normal means and the poisson rates -/
-def expectedAux [Inhabited K] (m : Model K) (par : Nat → K) : List K :=
+def expectedAux (m : Model K) (par : Nat → K) : List K :=
   let ts := constraintTerms m par
   let nm := (ts.filter (·.kind == .normal)).map (·.loc)
   let pr := (ts.filter (·.kind == .poisson)).map (·.loc)
-  (constraintsTV m).stitch ((if nm.isEmpty then [] else [nm]) ++ (if pr.isEmpty then [] else [pr]))
+  (constraintsTV m).stitch 0 ((if nm.isEmpty then [] else [nm]) ++ (if pr.isEmpty then [] else [pr]))
 
 /-- The decomposition of `logpdf(pars, data)` into primitive terms, produced the way the code
 does it: `fullpdf_tv.split(data)` into main/aux, main Poisson terms bin by bin, then
 `constraints_tv.split(aux)` into the normal and poisson groups paired with the gathered
 parameters.  Each entry is `(kind, datum, mean-or-rate, width)`. -/
-def logpdfTerms [Inhabited K] (P : Prim K) (m : Model K) (par : Nat → K) (data : List K) :
+def logpdfTerms (P : Prim K) (m : Model K) (par : Nat → K) (data : List K) :
     List (CKind × K × K × K) :=
   let nmain := m.cfg.nmain
   let naux := (auxData m.ps).length
   let full := TV.ofSizes ([nmain] ++ (if (constraintTerms m par).isEmpty then [] else [naux]))
-  let parts := full.split data
+  let parts := full.split 0 data
   let mainD := parts.getD 0 []
   let auxD := parts.getD 1 []
   let rates := expectedActual P m par
@@ -331,15 +331,51 @@ def logpdfTerms [Inhabited K] (P : Prim K) (m : Model K) (par : Nat → K) (data
   let nT := ts.filter (·.kind == .normal)
   let pT := ts.filter (·.kind == .poisson)
   let ctv := constraintsTV m
-  let groups := ctv.split auxD
+  let groups := ctv.split 0 auxD
   let nD := if nT.isEmpty then [] else groups.getD 0 []
   let pD := if pT.isEmpty then [] else groups.getD (if nT.isEmpty then 0 else 1) []
   mainT ++ (nD.zip nT).map (fun (d, t) => (CKind.normal, d, t.loc, t.scale))
         ++ (pD.zip pT).map (fun (d, t) => (CKind.poisson, d, t.loc, t.scale))
 
 /-- `Model.expected_data` = stitch(main, aux) -/
-def expectedData [Inhabited K] (P : Prim K) (m : Model K) (par : Nat → K) : List K :=
+def expectedData (P : Prim K) (m : Model K) (par : Nat → K) : List K :=
   expectedActual P m par ++ expectedAux m par
+
+end
+end Pyhf
+
+namespace Pyhf
+section
+variable {K : Type} [Add K] [Sub K] [Mul K] [Div K] [Neg K] [OfNat K 0] [OfNat K 1]
+  [OfScientific K] [LT K] [LE K] [DecidableLT K] [DecidableLE K] [BEq K]
+
+/-- the two log-density primitives (`tensorlib.poisson_logpdf(n, lam)`, `tensorlib.normal_logpdf(x, mu, sigma)`);
+their exactness is the subject of C04 -/
+structure LogPrim (K : Type) where
+  lpois : K → K → K
+  lnorm : K → K → K → K
+
+def termLog (L : LogPrim K) : CKind × K × K × K → K
+  | (.poisson, d, rate, _) => L.lpois d rate
+  | (.normal, d, mu, sigma) => L.lnorm d mu sigma
+
+/-- `Model.logpdf(pars, data)` (unbatched: the `(1,)`-shaped result's entry) -/
+def logpdfT (P : Prim K) (L : LogPrim K) (m : Model K) (par : Nat → K) (data : List K) : K :=
+  sumK ((logpdfTerms P m par data).map (termLog L))
+
+/-- `Model.mainlogpdf(maindata, pars)` -/
+def mainLogpdfT (P : Prim K) (L : LogPrim K) (m : Model K) (par : Nat → K) (maindata : List K) : K :=
+  sumK ((maindata.zip (expectedActual P m par)).map fun (d, r) => L.lpois d r)
+
+/-- `Model.constraint_logpdf(auxdata, pars)` -/
+def constraintLogpdfT (L : LogPrim K) (m : Model K) (par : Nat → K) (aux : List K) : K :=
+  let ts := constraintTerms m par
+  let nT := ts.filter (·.kind == .normal)
+  let pT := ts.filter (·.kind == .poisson)
+  let groups := (constraintsTV m).split 0 aux
+  let nD := if nT.isEmpty then [] else groups.getD 0 []
+  let pD := if pT.isEmpty then [] else groups.getD (if nT.isEmpty then 0 else 1) []
+  sumK (((nD.zip nT).map fun (d, t) => L.lnorm d t.loc t.scale) ++ ((pD.zip pT).map fun (d, t) => L.lpois d t.loc))
 
 end
 end Pyhf
